@@ -116,6 +116,14 @@ def ConformsList : List (Pat V) → List (Prob V) → Prop
   | _, _ => False
 end
 
+/-- What the property demands of an update `u` offered by builder `b` whose current value is `sub`:
+`Choice` offers values of its choice set other than the current one; `ArrayBuilder2D` offers `UpdateOk`
+cell updates (for a grid of the declared shape). -/
+def BuilderUpdOk [DecidableEq V] : BuilderSpec V → Prob V → Upd V → Prop
+  | .choice ch _, .leaf (.val cur), .setVal v => v ∈ ch ∧ v ≠ cur
+  | .array c, .leaf (.grid g), .cells l => Shaped c.height c.width g → UpdateOk c g l
+  | _, _, _ => False
+
 /-! ## generate_problem -/
 
 variable {P N A : Type}
